@@ -1,12 +1,12 @@
 import sys, os
 sys.path.insert(0, os.path.join(VERIF, 'harness'))
 from typed_common import *
-ETYPES = ['E_Uni', 'E_Int', 'E_Ser', 'E_Exc', 'E_Gap', 'E_MinU', 'E_ExtA', 'E_Ref', 'E_Vals', 'E_SemiSer', 'E_P256', 'E_P257', 'E_Neg']
-Q = ['E_Uni', 'E_Int', 'E_Ser', 'E_Exc', 'E_Ref', 'E_Vals', 'E_P257', 'E_Neg']
+ETYPES = ['E_Uni', 'E_Int', 'E_Ser', 'E_Exc', 'E_Gap', 'E_MinU', 'E_ExtA', 'E_Ref', 'E_Vals', 'E_SemiSer', 'E_P256', 'E_P257', 'E_Neg', 'E_MaxU']
+Q = ['E_Uni', 'E_Int', 'E_Ser', 'E_Exc', 'E_Ref', 'E_Vals', 'E_P257', 'E_Neg', 'E_MaxU', 'E_MinU']
 HARNESSES = []
 for t in ETYPES:
     for k in ('uper', 'oer'):
-        if (t, k) in (('E_MinU', 'uper'), ('E_ExtA', 'uper')):
+        if (t, k) in (('E_MinU', 'uper'), ('E_ExtA', 'uper'), ('E_MaxU', 'uper')):
             continue   # unconstrained-length UPER integer: too slow, see DESIGN (covered for T_IntNeg bounded)
         tiers = ('quick', 'thorough') if t in Q else ('thorough',)
         hb = ['-DINT_HARNESS_BOUND=32767LL'] if (t, k) == ('E_ExtA', 'uper') else []
